@@ -1,8 +1,7 @@
 """C02 - every request gets exactly one outcome, computed only from its own input (no cross-talk)."""
-import weakref
-
 from hypothesis import strategies as st
 
+from vf.alloc import Alloc
 from vf.core import CaseInfo, Family, Violation, hang_check, sched_strategy
 
 from . import serverlib as sv
@@ -14,48 +13,6 @@ ASSUMPTIONS = [
     '(at once under backpressure, after 0.99*timeout without); requests with unbounded timeout must be answered',
     'object identity allocator: if the server mints ids with id(), a generated legal-but-adversarial allocator (recycles ids of freed objects) is substituted',
 ]
-
-
-class Alloc:
-    """legal object-identity allocator: unique among live objects, but may recycle the id of a freed object (driven by generated bits)"""
-
-    def __init__(self, bits):
-        self.bits = list(bits)
-        self.pos = 0
-        self.live = {}  # id -> weakref
-        self.freed = []
-        self.next = 1000
-        self.recycled = 0
-        self.by_obj = weakref.WeakKeyDictionary()
-
-    def __call__(self, obj):
-        try:
-            if obj in self.by_obj:
-                return self.by_obj[obj]
-        except TypeError:
-            return id(obj)
-        # collect freed ids
-        for i, r in list(self.live.items()):
-            if r() is None:
-                del self.live[i]
-                self.freed.append(i)
-        use_old = False
-        if self.freed:
-            b = self.bits[self.pos % len(self.bits)] if self.bits else 0
-            self.pos += 1
-            use_old = bool(b)
-        if use_old:
-            i = self.freed.pop(0)
-            self.recycled += 1
-        else:
-            i = self.next
-            self.next += 1
-        try:
-            self.live[i] = weakref.ref(obj)
-            self.by_obj[obj] = i
-        except TypeError:
-            return id(obj)
-        return i
 
 
 @st.composite
